@@ -288,6 +288,8 @@ def multi_world():
         LeafSpec("L2", "e1", ABC, YROWS),
         LeafSpec("K1", "e1", ("a", "d"), KROWS),
         LeafSpec("E1", "e1", ABC, (), min_rows=0, max_rows=0),
+        LeafSpec("D1", "e1", ABC, (), special="doomed"),
+        LeafSpec("DS", "s", ABC, (), special="doomed"),
     )
     return World(engines=(("s", "sql"), ("e1", "it"), ("e2", "it")), leaves=leaves)
 
@@ -343,3 +345,83 @@ MULTI_JOIN = (
     ("join", ("K1",), None, False),
 )
 MULTI_FULL = MULTI_PLAIN + MULTI_PE + MULTI_JOIN
+
+
+# ------------------------------------------------------------------ data-exhaustive worlds
+def _cube_lists(maxlen):
+    import itertools
+
+    cube = [(i, j, k) for i in (0, 1) for j in (0, 1) for k in (0, 1)]
+    return [t for n in range(0, maxlen + 1) for t in itertools.product(cube, repeat=n)]
+
+
+def it_data_world(maxlen=2):
+    """Iteration world whose roots T0..Tn are ALL row lists of length <= maxlen over the 2x2x2 cube
+    (n = 10*a appended), plus the usual operands."""
+    e = "e1"
+    leaves = [
+        LeafSpec(f"T{i}", e, ABCN, tuple(r + (10 * r[0],) for r in rows)) for i, rows in enumerate(_cube_lists(maxlen))
+    ]
+    leaves += [LeafSpec("L2", e, ABCN, SIB), LeafSpec("E0", e, ABCN, (), min_rows=0, max_rows=0)]
+    return World(engines=(("e1", "it"), ("e2", "it")), leaves=tuple(leaves)), tuple(
+        f"T{i}" for i in range(len(_cube_lists(maxlen)))
+    )
+
+
+def sql_data_world(maxlen=2):
+    s = "s"
+    leaves = [LeafSpec(f"T{i}", s, ABC, tuple(rows)) for i, rows in enumerate(_cube_lists(maxlen))]
+    leaves += [
+        LeafSpec("Y", s, ABC, ((0, 0, 1), (1, 1, 0), (0, 0, 1))),
+        LeafSpec("K", s, ("a", "d"), ((0, 7), (1, 8), (1, 9))),
+        LeafSpec("K2", s, ("b", "d2"), ((0, 5), (1, 6))),
+        LeafSpec("E", s, ABC, (), min_rows=0, max_rows=0),
+        LeafSpec("X", s, ABC, XROWS),
+        LeafSpec("I0", s, (), ((),), special="identity"),
+        LeafSpec("D0", s, ABC, (), special="doomed"),
+    ]
+    return World(engines=(("s", "sql"),), leaves=tuple(leaves)), tuple(f"T{i}" for i in range(len(_cube_lists(maxlen))))
+
+
+P_A_GT_0 = ("gt", R("a"), L(0))
+P_B_EQ_C = ("eq", R("b"), R("c"))
+IT_DATA_OPS = (
+    ("calc", "x", A_PLUS_B),
+    ("proj", ("a", "b")),
+    ("proj", ("b", "c")),
+    ("proj", ("a", "n")),
+    ("proj", ()),
+    ("sel", P_A_GT_0),
+    ("sel", P_B_EQ_C),
+    ("sel", P_A_SEQ),
+    ("dedup",),
+    S((R("a"), DESC)),
+    S((R("b"), ASC), (R("a"), DESC)),
+    S((A_PLUS_B, DESC)),
+    S((R("a"), ASC), (R("a"), DESC)),
+    ("slice", 0, 1),
+    ("slice", 1, None),
+    ("slice", 1, 2),
+    ("chain", ("self",)),
+    ("chain", ("L2",)),
+    ("mat", "m1"),
+)
+SQL_DATA_OPS = (
+    ("calc", "x", A_PLUS_B),
+    ("proj", ("a", "b")),
+    ("proj", ("b", "c")),
+    ("proj", ()),
+    ("sel", P_A_GT_0),
+    ("sel", P_B_EQ_C),
+    ("dedup",),
+    S((R("c"), ASC), (R("a"), ASC), (R("b"), ASC)),
+    S((R("b"), DESC)),
+    ("slice", 0, 1),
+    ("slice", 1, None),
+    ("chain", ("self",)),
+    ("chain", ("Y",)),
+    ("join", ("K",), None, False),
+    ("join", ("K",), P_D_GT_A, True),
+    ("join", ("Y", ("proj", ("a", "b"))), None, False),
+    ("join", ("K2",), None, False),
+)
